@@ -476,7 +476,7 @@ def h_delta_graph(eng, n=2, installed=True, empty_last=False):
             for i in range(n + 1):
                 hexname = binascii.hexlify(name(i))
                 try:
-                    got = _with_watchdog(20.0, lambda: r.object_store.get_raw(hexname))
+                    got = _with_watchdog(8.0, lambda: r.object_store.get_raw(hexname))
                 except _Hang:
                     eng.fail(f"{tag} lookup of entry {i} does not terminate (delta cycle)")
                     continue
@@ -488,7 +488,7 @@ def h_delta_graph(eng, n=2, installed=True, empty_last=False):
         else:
             before = _visible(r.object_store)
             try:
-                _with_watchdog(30.0, lambda: _ingest(r.object_store, pack, "add_pack"))
+                _with_watchdog(15.0, lambda: _ingest(r.object_store, pack, "add_pack"))
                 err = None
             except _Hang:
                 eng.fail(f"{tag} ingestion does not terminate")
@@ -521,7 +521,7 @@ def checks(tier):
                bounds="a pack of one full blob and 1-3 delta entries; every entry's kind (OFS / REF) and base (any entry including "
                       "itself and later ones for REF; any earlier entry or itself, i.e. distance 0, for OFS) symbolic: self "
                       "references, 2- and 3-cycles, mixed OFS/REF cycles, chains into cycles; installed with a matching index "
-                      "(every lookup under a 20 s watchdog) or ingested through add_pack; optionally the last delta produces the empty blob",
+                      "(every lookup under an 8 s watchdog) or ingested through add_pack; optionally the last delta produces the empty blob",
                outside="cycles through more than 3 deltas or across several packs; thin packs", tiers=q),
     ]
 
@@ -562,7 +562,7 @@ def h_index_long_name(eng, version=2):
             fh.write(data)
         tag = f"[v{version} name of {nlen} bytes; damage kind {kind} at name+{where}]"
         try:
-            got = _with_watchdog(20.0, lambda: Index(path))
+            got = _with_watchdog(8.0, lambda: Index(path))
         except _Hang:
             eng.fail(f"{tag} reading the index does not terminate")
             return
@@ -584,7 +584,7 @@ def checks(tier):
                         "dulwich.index.Index.read", "dulwich.pack.SHA1Reader.check_sha"],
                bounds="index versions 2-4 with a name of 0xFFF / 0x1000 / 0x1001 bytes; truncation, or overwriting of everything "
                       "from there on by non-NUL bytes, at 8 positions relative to the name (start, inside, around the 4095th byte, "
-                      "end, padding); read under a 20 s watchdog", outside="other positions; several long names", tiers=q),
+                      "end, padding); read under an 8 s watchdog", outside="other positions; several long names", tiers=q),
     ]
 
 
